@@ -37,6 +37,23 @@ ASSUMPTIONS = [
     "order is None or an int >= 0; lag vectors / blocks are finite lists of ints, Fractions or floats",
     "theorems are over an arbitrary field (kautocor_minimises: ordered field); float rounding is outside them",
 ]
+MANIFEST = {
+    "text": "Lean 4 theorems, for every field / every lag vector / every order (no bound): levinson_durbin as coded "
+            "returns a monic solution of the Yule-Walker equations with error = sum_j a_j r_j, raises ParCorError "
+            "exactly when an intermediate prediction error is zero, E_{p+1} = E_p - Delta^2/E_p, matrix form with "
+            "toeplitz; acorr / lag_matrix / toeplitz are the documented sums; lpc.kautocor's error is the energy of "
+            "a * zero-extended block and (ordered field) the filter minimises it; lpc.kcovar as coded (Gram-Schmidt "
+            "with its exits) returns a solution of the covariance normal equations whose error is the residual "
+            "energy over n >= p, and minimises it.  Tied to /repo by a differential run (exact-rational model vs "
+            "the float-contaminated impl, exact on dyadic inputs) that also evaluates the Lean spec on the "
+            "coefficients the impl returns.",
+    "note": "Trusted: Lean kernel + propext/Classical.choice/Quot.sound, the Python harness, the hand-written model "
+            "(ZFilter/Poly arithmetic taken as coefficient-wise arithmetic on trimmed coefficient lists).  Float "
+            "rounding is outside the theorems; float cases within 1e-4 of a zero divisor / of |k| = 1 are only "
+            "counted, not compared (histogram float_ill_conditioned_model_comparison_skipped).",
+    "technique": "Lean 4 machine-checked proof (loop invariants by induction on the order, Finset sums) over an "
+                 "executable model + differential correspondence and spec evaluation on the implementation's output",
+}
 TOL = 1e-9
 
 _IMPL = {}       # key(case) -> coefficients returned by the impl (sent to the driver as impl_a)
